@@ -426,3 +426,15 @@ def sf_Stop(eng, st, args, kw, node):
 
 
 BuiltinMixin.SPEC_FUNCS.update({"Stop": sf_Stop})
+
+
+def sf_seeded_with(eng, st, args, kw, node):
+    """the numpy global RNG was (re)seeded with exactly this value, before any draw of this run"""
+    want = args[0]
+    got = st.ghost.get("seed_arg")
+    if got is None or not st.ghost.get("seeded_before_draw", False):
+        return _b(z3.BoolVal(False))
+    return _b(eng.equals(st, got, want, node))
+
+
+BuiltinMixin.SPEC_FUNCS.update({"seeded_with": sf_seeded_with})
